@@ -1,4 +1,5 @@
-"""C08 BatchedWriter: interleaving model (coq/C08_Batch) + scripted-schedule and free-running correspondence (DESIGN.md §7.8)."""
+"""C08 BatchedWriter: interleaving model (coq/C08_Batch) + scripted-schedule and free-running correspondence (DESIGN.md §7.8);
+store faults, option grid, rich objects (mutation-level store contract), concurrent first Enqueue calls."""
 from . import lib
 
 LEVEL = "proof"
@@ -17,10 +18,10 @@ def run(ctx):
     if thorough:
         for k in range(5):
             ctx.seed += 1000
-            ctx.corr(hx, ["run", "--n", "600", "--free", "600", "--fault", "400", "--child", "20", "--opts", "3"], cases_name="cases%d.v" % k)
+            ctx.corr(hx, ["run", "--n", "600", "--free", "600", "--fault", "400", "--child", "20", "--opts", "3", "--objs", "600", "--startup", "20000", "--startup-budget", "60s"], cases_name="cases%d.v" % k)
         ctx.seed -= 5000
     else:
-        ctx.corr(hx, ["run", "--n", "250", "--free", "250", "--fault", "120", "--child", "8", "--opts", "1"])
+        ctx.corr(hx, ["run", "--n", "250", "--free", "250", "--fault", "120", "--child", "8", "--opts", "1", "--objs", "160", "--startup", "4000", "--startup-budget", "6s"])
     ctx.assumptions += [
         "batch size >= 1 (batch size 0 panics in BatchCollector.Add on the first object; outside the property)",
         "one BatchedWriter life cycle (autoStartOnce: a stopped writer is never restarted)",
@@ -28,6 +29,8 @@ def run(ctx):
         "batch timer: the model treats 'the time-out fires' as a free scheduler choice that is always enabled (C08_timeout_always_enabled) and is the only step of an idle writer (C08_idle_writer_only_timeout), so the theorems cover every timer behaviour. The correspondence ran these timer configurations: scripted 50ms (timer awaited explicitly), free/fault 0 and 1-3ms, option grid -1h, -1ns, 0, 1ns, 1us, 300us, 2ms, default 500ms (fires at once / early: completeness at StopBatchWriter judged under a 6s watchdog) and 1h (never fires within the run: only batch-size and Flush triggers, no Stop since the code releases Stop only through the timer). Options varied: WithBatchTimeout (those 9 values), WithBatchSize 1/2/4/not given (10000), WithQueueSize 0/1/2/not given (10000); not varied: batch size <= 0 and queue size < 0 (constructor / first Add panics: outside the property)",
         "no-blocking is proved in two forms for the repaired code: no reachable state with an unfinished call is stuck (C08_no_block / C08_progress) and every reachable state has a continuation of the schedule in which every call returns (C08_can_finish); that a fair scheduler actually takes such a continuation (termination under fairness, real timers) is not formalised (watchdogs in the harness observe it)",
         "completeness is proved at value level over the model (C08_complete, C08_complete_written, C08_complete_ordered, C08_enqueue_accepted_before_stop): the object's content is one value announced at the Enqueue invocation and read by the writer at BatchWrite; the Go oracle and Corr.free_ok check the same predicates on every run",
+        "object behaviours (objs.go, 160 quick / 5x600 thorough cases): objects with 1-3 keys that write their full state at every BatchWrite (Set for keys they hold, Delete for keys they do not, forward / reverse order, optionally Delete-then-Set or Set-then-Delete of one key inside one BatchWrite, values of 0-6 bytes), all marshalling into ONE key buffer and ONE value buffer that are overwritten by the next call and scribbled over when BatchWrite returns; sequential script change / Enqueue / wait until collected / change again / Enqueue again, so that one object is written twice inside one batch (batch size above the number of schedulings, 1h batch time-out, commit by Flush) incl. Set-then-Delete and Delete-then-Set of one key by two schedulings of one batch; other cases with batch size 1-3, time-outs 2/5/25 ms and StopBatchWriter. Oracle: the store read back completely and byte-exact = the recorded mutation calls (arguments copied at call time) of the committed batches applied in call order (Muts.apply_muts, Corr.objs_ok) = per object the state of its last committed BatchWrite. Only the mapdb store is exercised (the store every test and simulation runs the BatchedWriter on)",
+        "start-up (startup.go, 4000 quick (time budget 6 s, at least 1000) / 5x20000 thorough rounds): 2-8 producers issue the very first Enqueue calls of a fresh BatchedWriter at the same moment (spin barrier, three release patterns incl. 0-300 iterations of skew), 1/3 of them a second call right after; StopBatchWriter is invoked only after all have returned, so no call may be rejected and everything must be written at Stop's return. The window of a non-atomic start cannot be widened from outside (private mutex): the family is statistical. The model has the auto-start as explicit steps with sync.Once semantics (C08_concurrent_first_enqueues_started, C08_complete_before_stop; C08_refuted_start_flag for a test-and-set start flag)",
         "scripted schedules are replayed at the granularity of the harness gates (Enqueue hook, flag test, writer callbacks); finer interleavings are covered by the proof only",
     ]
 
